@@ -812,8 +812,26 @@ ARefStart ==
                  cur, sec, insp, alt)
         /\ UNCHANGED <<cid, memo, kf, obs, result>>
 
-APassRet ==      \* rec, ref, with_ctx, map_ctx: the child's result is the result
-  /\ Resuming({"rec", "ref", "withctx", "mapctx"}, 1)
+(* let / var: one parser VALUE used at several places (clones of a boxed parser share the     *)
+(* allocation, hence the identity that memoized() keys on).  `let` binds a definition for its *)
+(* body, `var k` runs the k-th enclosing definition in the definition's own environment.      *)
+ALetStart ==
+  /\ Entering({"let"})
+  /\ LET f == Top IN
+     /\ CallX([f EXCEPT !.pc = 1], f.g[3], f.mode, f.ctx, <<[body |-> f.g[2], path |-> Append(f.path, 1)]>> \o f.env,
+              Append(f.path, 2), "go", 0, cur, sec, insp, alt)
+     /\ UNCHANGED <<cid, memo, kf, obs, result>>
+
+AVarStart ==
+  /\ Entering({"var"})
+  /\ LET f == Top
+         k == f.g[2]
+     IN /\ CallX([f EXCEPT !.pc = 1], f.env[k].body, f.mode, f.ctx, SubSeq(f.env, k + 1, Len(f.env)), f.env[k].path, "go", 0,
+                 cur, sec, insp, alt)
+        /\ UNCHANGED <<cid, memo, kf, obs, result>>
+
+APassRet ==      \* rec, ref, let, var, with_ctx, map_ctx: the child's result is the result
+  /\ Resuming({"rec", "ref", "let", "var", "withctx", "mapctx"}, 1)
   /\ Keep([ret EXCEPT !.fr = NoFrame])
 
 ---------------------------------------------------------------------------
@@ -1017,7 +1035,7 @@ CoreNext ==
   \/ ARecoverStart \/ ARecoverARet \/ ARecoverViaRet \/ ASkipUntilUntilRet \/ ASkipUntilSkipRet
   \/ ARetryUntilRet \/ ARetrySkipRet \/ ARetryRetryRet
   \/ ALabelStart \/ ALabelRet \/ AMapErrRet
-  \/ AMemoStart \/ AMemoRet \/ ARecStart \/ ARefStart \/ APassRet
+  \/ AMemoStart \/ AMemoRet \/ ARecStart \/ ARefStart \/ ALetStart \/ AVarStart \/ APassRet
   \/ AWithCtxStart \/ AThenCtxStart \/ AThenCtxARet \/ AThenCtxBRet \/ AWithStateStart \/ AWithStateRet
   \/ APrattStart \/ APrattPrefixScan \/ APrattPrefixRet \/ APrattAtomRet \/ APrattPostfixScan \/ APrattInfixScan \/ APrattInfixRet
   \/ Finish
